@@ -42,6 +42,7 @@ type Client struct {
 	Exch     []Exch `json:"exch"`
 	Spoof    int    `json:"spoof,omitempty"`    // forged foreign-ID datagrams injected towards this client
 	Pipeline bool   `json:"pipeline,omitempty"` // tcp: all queries are written before any reply is read; the handlers answer asynchronously
+	Home     int    `json:"home,omitempty"`     // udp: which of the server host's addresses this client talks to
 }
 
 type Scenario struct {
@@ -59,6 +60,8 @@ type Scenario struct {
 	Decorate  bool     `json:"decorate,omitempty"`
 	Junk      int      `json:"junk,omitempty"` // datagrams the server must drop or refuse (QR set, unsupported opcode, short), sent by a stranger between the exchanges
 	Clients   []Client `json:"clients,omitempty"`
+	UDPSock   bool     `json:"udp_sock,omitempty"` // the datagram server runs on a UDP socket (SessionUDP branch with control messages) where the build has that seam, not on a generic PacketConn
+	Homes     int      `json:"homes,omitempty"`    // with UDPSock: the server host has this many addresses (two IPv4, one IPv6)
 
 	// framing
 	Sizes     []int `json:"sizes,omitempty"`  // message sizes written on one stream
@@ -141,6 +144,10 @@ func Gen(seed uint64, tier string) any {
 	if core.Chance(r, 35) {
 		sc.Junk = 1 + r.IntN(6)
 	}
+	if core.Chance(r, 50) {
+		sc.UDPSock = true
+		sc.Homes = core.Pick(r, 1, 2, 3, 3)
+	}
 	maxc, maxe := 4, 3
 	if tier == "thorough" {
 		maxc, maxe = 8, 6
@@ -166,6 +173,9 @@ func Gen(seed uint64, tier string) any {
 		}
 		if c.Net == "udp" && core.Chance(r, 30) {
 			c.Spoof = core.Pick(r, 1, 2, 3, 9, 20)
+		}
+		if c.Net == "udp" && sc.Homes > 1 {
+			c.Home = r.IntN(sc.Homes)
 		}
 		if c.Net == "tcp" && core.Chance(r, 20) {
 			c.Pipeline = true
@@ -322,6 +332,8 @@ type run struct {
 	tcp, udp  *dns.Server
 	l         *simnet.Listener
 	pc        *simnet.PacketConn
+	uc        *simnet.UDPConn
+	homes     int
 	ex        map[string]*exState
 	cliFin    []bool
 	lifeFin   bool
@@ -569,7 +581,7 @@ func (c *clientTask) RunEvent(time.Time) {
 		sconn = x.n.Dial(x.l, true)
 		co = &dns.Conn{Conn: sconn}
 	} else {
-		dconn = x.n.DialPacket(x.pc)
+		dconn = x.n.DialUDP(x.uc, plan.Home%x.homes)
 		co = &dns.Conn{Conn: dconn}
 	}
 	if dconn != nil {
@@ -890,7 +902,7 @@ func (x *run) checkDelivery(ex *exState, deadline time.Time) {
 				continue
 			}
 			x.res.Stats["oracle.X1_delivery"]++
-			x.res.Fail("X1", "reply-lost", "handler wrote the matching reply for %s at %v, well before the client's deadline, on a link that drops nothing, yet the exchange timed out", ex.token, ex.writeT[i].Sub(time.Time{}))
+			x.res.Fail("X1", "reply-lost", "handler wrote the matching reply for %s %v before the client's deadline, on a link that drops nothing, yet the exchange timed out", ex.token, deadline.Sub(ex.writeT[i]))
 		}
 	}
 }
@@ -1037,7 +1049,12 @@ func runExchange(sc *Scenario, res *core.Result, verbose bool) {
 	n.Dgram = simnet.DgramLink{MinDelay: d, Jitter: j, Drop: sc.Drop, Dup: sc.Dup}
 	x := &run{sc: sc, k: k, n: n, res: res, ex: map[string]*exState{}, cliFin: make([]bool, len(sc.Clients)), connReply: map[string][][]byte{}}
 	x.l = n.Listen()
-	x.pc = n.ListenPacket()
+	x.homes = 1
+	if sc.UDPSock && common.UDPSeam && sc.Homes > 1 {
+		x.homes = sc.Homes
+	}
+	x.uc = n.ListenUDP([]string{"10.0.0.1:53", "10.0.0.7:53", "[fd00::1]:53"}[:x.homes]...)
+	x.pc = x.uc.PacketConn
 	mk := func() *dns.Server {
 		s := &dns.Server{Handler: x, UDPSize: sc.UDPSize, ReadTimeout: time.Hour, IdleTimeout: hourIdle}
 		if sc.Decorate {
@@ -1050,6 +1067,10 @@ func runExchange(sc *Scenario, res *core.Result, verbose bool) {
 	x.tcp, x.udp = mk(), mk()
 	x.tcp.Listener = x.l
 	x.udp.PacketConn = x.pc
+	if sc.UDPSock && common.UDPSeam {
+		x.udp.PacketConn = common.ServerSocket(x.uc)
+		res.Bump("cover.server_on_udp_socket")
+	}
 	for ci, c := range sc.Clients {
 		for ei, e := range c.Exch {
 			x.ex[tok(ci, ei)] = &exState{ci: ci, ei: ei, token: tok(ci, ei), plan: e, id: uint16(1000 + ci*64 + ei), net: c.Net}
@@ -1094,6 +1115,28 @@ func (x *run) judgeRun(outcome string) {
 	case kernel.Quiescent:
 		res.Fail("X0", "stuck", "the run cannot make progress: parked %v", x.k.Parked())
 		return
+	}
+	// X3: a reply leaves from the address its request was sent to (a host with
+	// several addresses; a connected client socket never sees anything else)
+	if x.uc.BadSource > 0 {
+		res.Fail("X3", "reply-source-not-local", "%d repl(ies) were sent with a source address the server host does not have", x.uc.BadSource)
+		return
+	}
+	for _, d := range x.n.Dgrams {
+		if !d.FromSrv || d.Injected || len(d.Orig) < 13 {
+			continue
+		}
+		q, _, _, err := oracle.Name(d.Orig, 12)
+		ex := x.ex[tokenOf(q)]
+		if err != nil || ex == nil || ex.net != "udp" {
+			continue
+		}
+		res.Bump("oracle.X3_reply_source_address")
+		want := x.uc.Locals[sc.Clients[ex.ci].Home%x.homes]
+		if d.From != want {
+			res.Fail("X3", "reply-source-address", "the reply to %s, which was sent to %s, left the server from %s: the client's connected socket never receives it", ex.token, want.S, d.From.S)
+			return
+		}
 	}
 	// B1: the server always offers a receive buffer of UDPSize octets, whatever
 	// passed through the buffer pool before
